@@ -110,6 +110,8 @@ void logf(const char* fmt, ...) __attribute__((format(printf, 1, 2))); // event 
 void log_bytes(const void* p, size_t n);                                // fold raw bytes (e.g. float outputs) into the hash
 void probe(const char* name, long n = 1);
 void fired(const char* kind, long n = 1); // a fault that actually fired
+// called by the simulated OpenMP runtime when every thread is blocked, before it ends the process with exit code 78
+extern void (*deadlock_hook)(const char* what);
 void add_sim_seconds(double s);
 uint64_t log_hash();
 
